@@ -41,16 +41,41 @@ def build_debug_frame(rng, le, fmt, asz, version, names, n_fde=2):
         raw, op, args = C.gen_instruction(rng, asz, le, cie_names)
         body += raw
         cie_instrs.append((op, args))
-    section = wrap(body)
-    expect = [dict(kind='CIE', offset=0, instrs=cie_instrs, code_align=code_align, data_align=data_align, version=version,
-                   ra=ra)]
-    for _ in range(n_fde):
+    cie_bytes = wrap(body)
+    # any interleaving: with fde_first the first FDE precedes the CIE its pointer designates (the CIE is then parsed on
+    # behalf of that FDE and met again, already cached, by the section scan)
+    fde_first = rng.random() < 0.4
+    section, expect, cie_off = b'', [], 0
+    cie_x = dict(kind='CIE', offset=0, instrs=cie_instrs, code_align=code_align, data_align=data_align, version=version, ra=ra)
+    if not fde_first:
+        section = cie_bytes
+        expect.append(cie_x)
+    for i_fde in range(n_fde):
         off = len(section)
         loc = rng.randrange(0, 1 << (8 * asz - 1))
         rng_len = rng.randrange(1, 5000)
-        body = (0).to_bytes(offw, bo) + loc.to_bytes(asz, bo) + rng_len.to_bytes(asz, bo)
+        n_ins = rng.randrange(0, 9)
+        if fde_first and i_fde == 0:
+            # the CIE follows this FDE: its offset depends on the FDE's length, so the instructions come first
+            pre = []
+            for _ in range(n_ins):
+                raw, op, args = C.gen_instruction(rng, asz, le, [n for n in names if n not in (
+                    'DW_CFA_restore_state', 'DW_CFA_remember_state')])
+                pre.append((raw, op, args))
+            flen = offw + 2 * asz + sum(len(r) for r, _, _ in pre)
+            cie_off = off + (4 if fmt == 32 else 12) + flen
+            body = cie_off.to_bytes(offw, bo) + loc.to_bytes(asz, bo) + rng_len.to_bytes(asz, bo) + b''.join(r for r, _, _ in pre)
+            section += wrap(body)
+            expect.append(dict(kind='FDE', offset=off, instrs=[(op, args) for _, op, args in pre], initial_location=loc,
+                               address_range=rng_len, cie=cie_off))
+            assert len(section) == cie_off
+            cie_x['offset'] = cie_off
+            section += cie_bytes
+            expect.append(cie_x)
+            continue
+        body = cie_off.to_bytes(offw, bo) + loc.to_bytes(asz, bo) + rng_len.to_bytes(asz, bo)
         instrs, depth = [], 0
-        for _ in range(rng.randrange(0, 9)):
+        for _ in range(n_ins):
             allow = [n for n in names if (n != 'DW_CFA_restore_state' or depth > 0)]
             raw, op, args = C.gen_instruction(rng, asz, le, allow)
             nme = C.name_of(op)
@@ -61,7 +86,7 @@ def build_debug_frame(rng, le, fmt, asz, version, names, n_fde=2):
             body += raw
             instrs.append((op, args))
         section += wrap(body)
-        expect.append(dict(kind='FDE', offset=off, instrs=instrs, initial_location=loc, address_range=rng_len, cie=0))
+        expect.append(dict(kind='FDE', offset=off, instrs=instrs, initial_location=loc, address_range=rng_len, cie=cie_off))
     return section, expect
 
 
@@ -184,6 +209,10 @@ def compare(section, expect, le, asz, for_eh, address):
     if len(entries) != len(expect):
         return 'number of entries %d, encoded %d' % (len(entries), len(expect))
     cie_rows = {}
+    for x in expect:          # an FDE may precede its CIE: the CIEs' initial rules first
+        if x['kind'] == 'CIE':
+            cie_rows[x['offset']] = (C.interpret(x['instrs'], x['code_align'], x['data_align'], 0, None, True), x,
+                                     C.reg_order(x['instrs'], []))
     for e, x in zip(entries, expect):
         kind = 'CIE' if isinstance(e, CIE) else 'FDE' if isinstance(e, FDE) else 'ZERO' if isinstance(e, ZERO) else '?'
         if kind != x['kind'] or e.offset != x['offset']:
